@@ -46,6 +46,50 @@ def make_models():
     return C.SocksModels()
 
 
+def make_models_for(unit_name):
+    if unit_name.endswith('TorClientEndpoint.connect'):
+        from props import C18
+        return C18.Models18()
+    return C.SocksModels()
+
+
+def unit_socks_endpoint_init():
+    """TorSocksEndpoint(proxy, host, port): the host the machine will be asked to encode is the caller's host - a bytes host is
+    decoded as ASCII or refused, never silently altered"""
+    def run(ctx):
+        ctx.fn(MODULE, 'TorSocksEndpoint.__init__')
+        import txtorcon.socks as socks
+        from pyvc.sym import VInst
+        ex = ctx.ex
+        path = ctx.new_path()
+        e = ex.new_inst(path, socks.TorSocksEndpoint)
+        host = z3.String('host')
+        as_bytes = z3.Bool('host_given_as_bytes')
+        ctx.input('host', VStr(host))
+        ctx.input('host_given_as_bytes', as_bytes)
+        port = z3.Int('port')
+        arg = VUnion([(as_bytes, VBytes(host)), (z3.Not(as_bytes), VStr(host))])
+        ascii_ok = z3.InRe(host, z3.Star(z3.Range(mk_str('\x00'), mk_str('\x7f'))))
+        ctx.cover('pre_satisfiable', path)
+        g = ex.getattr_v(path, e, '__init__')
+        n_ok = 0
+        for p, r in ex.call(g[0][0], g[0][1], [VOpaque('proxy_endpoint', 1), arg, VInt(port)], {}):
+            if isinstance(r, Raise):
+                ctx.oblige('post.refused_only_for_a_bytes_host_that_is_not_ascii', p, z3.And(as_bytes, z3.Not(ascii_ok)),
+                           clause='targets that cannot be encoded are refused with an error rather than sent mangled')
+                continue
+            n_ok += 1
+            h = p.heap.get(('f', e.oid, '_host'))
+            po = p.heap.get(('f', e.oid, '_port'))
+            ok = isinstance(h, VStr) and isinstance(po, VInt)
+            ctx.oblige('post.machine_is_given_the_callers_host_text_and_port', p,
+                       zand(B(ok), h.t == host, po.t == port, z3.Implies(as_bytes, ascii_ok)) if ok else B(False),
+                       clause='non-ASCII names are refused with an error rather than sent mangled')
+        if not n_ok:
+            ctx.oblige('some_normal_exit', path, B(False))
+    return run
+
+
 def B(x):
     return z3.BoolVal(bool(x))
 
@@ -255,6 +299,10 @@ def units():
             out.append(('C06/disconnected_sends_nothing@%s/%s' % (st, rt), unit_no_send('disconnected', st, rt)))
     for k in KINDS:
         out.append(('C06/_create_ip_address/%s' % k, unit_create_ip_address(k)))
+    # the endpoint that feeds the machine its target: the caller's host and port, not the proxy's (contract shared with C18)
+    from props import C18
+    out.append(('C06/TorClientEndpoint.connect', C18.unit_connect()))
+    out.append(('C06/TorSocksEndpoint.__init__', unit_socks_endpoint_init()))
     return out
 
 
